@@ -268,7 +268,7 @@ func (s *st) onEnd(r *ipamkv.Runner, tid int, ctx *ipamkv.ThreadCtx, res *ipamkv
 			return "0"
 		}
 		s.h.Op(fmt.Sprintf("cni %d add w4=%s w6=%s aaerr=%s g4=%s g6=%s", tid, w[2], w[3], b01(s.rec.aaErr || !s.rec.aaCalled), b01(s.rec.got4), b01(s.rec.got6)),
-			fmt.Sprintf("%s rel4=%s rel6=%s", status, b01(s.rec.rel4), b01(s.rec.rel6)))
+			fmt.Sprintf("%s rel4=%s rel6=%s nonrel=%s", status, b01(s.rec.rel4), b01(s.rec.rel6), map[bool]string{true: "1", false: "-"}[res.Err == nil]))
 		s.h.Count("add:" + status)
 		if res.Err == nil {
 			if (w[2] == "1" && h1v4 < 1) || (w[3] == "1" && h1v6 < 1) {
